@@ -23,7 +23,9 @@ PY = "/venv/bin/python"
 
 def make_copy(mutant=None) -> str:
     d = tempfile.mkdtemp(prefix="verif-mut-", dir="/dev/shm")
-    shutil.copytree("/repo/fuzzylite", os.path.join(d, "fuzzylite"), ignore=shutil.ignore_patterns("__pycache__"))
+    # from /repo's HEAD (not the working tree): a seeded patch applied to /repo meanwhile must not leak in
+    ar = subprocess.run(["git", "-C", "/repo", "archive", "HEAD", "fuzzylite"], capture_output=True, check=True)
+    subprocess.run(["tar", "-x", "-C", d], input=ar.stdout, check=True)
     if mutant:
         p = os.path.join(d, "fuzzylite", mutant["file"])
         s = open(p).read()
@@ -50,10 +52,8 @@ def run_check(pid: str, repo: str, runs: int | None, seed: int = 0) -> tuple[int
 def run_tests(repo: str) -> str:
     t = os.path.join(repo, "tests")
     if not os.path.exists(t):
-        shutil.copytree("/repo/tests", t, ignore=shutil.ignore_patterns("__pycache__"))
-        for f in ("pyproject.toml", "README.md"):
-            if os.path.exists("/repo/" + f):
-                shutil.copy("/repo/" + f, repo)
+        ar = subprocess.run(["git", "-C", "/repo", "archive", "HEAD", "tests", "pyproject.toml", "README.md"], capture_output=True, check=True)
+        subprocess.run(["tar", "-x", "-C", repo], input=ar.stdout, check=True)
     r = subprocess.run([PY, "-m", "pytest", "-q", "-x", "-p", "no:cacheprovider", "--timeout=900",
                         "--deselect", "tests/test_benchmark.py::TestBenchmark::test_measure",
                         "--deselect", "tests/test_exporter.py::TestPythonExporter::test_object", "tests"],
